@@ -7,14 +7,14 @@ theorem upd_word_cexec (s : State) (j e i : Nat) :
   simp only [upd]; split <;> simp_all
 
 macro "invB_auto0" : tactic =>
-  `(tactic| (constructor <;> (try simp only [doSubmit, doDrop, doCurrent, doLdtor, doRet, doPublish, doFdtor, State.word, upd_word_cexec]) <;>
+  `(tactic| (constructor <;> (try simp only [doSubmit, doDrop, doCurrent, doLdtor, doRet, doPublish, doFdtor, doTdtor, State.word, upd_word_cexec]) <;>
       (try simp only [State.word] at *) <;>
       grind [inOp, decided, regPos, freshPc, afterRegPc, obsOk]))
 
 set_option maxHeartbeats 8000000 in
 theorem invB_step_0 {w s l s'} (ha : InvA w s) (hb : InvB w s) (hs : Step s l s')
     (hl : match l with | .envSwap _ _ | .exCall | .exDrop | .ldtor | .ret | .publish _ | .fdtor
-                       | .rdLoad _ | .mload _ | .submit _ | .current _ => True | _ => False) : InvB w s' := by
+                       | .rdLoad _ | .mload _ | .submit _ | .current _ | .tdtor _ => True | _ => False) : InvB w s' := by
   cases hb
   cases hs with
   | envSwap j e hu => invB_auto0
@@ -28,6 +28,7 @@ theorem invB_step_0 {w s l s'} (ha : InvA w s) (hb : InvB w s) (hs : Step s l s'
   | mload v h hv => invB_auto0
   | submit e h => invB_auto0
   | current op rest h ht => invB_auto0
+  | tdtor j h hl hr => invB_auto0
   | _ => simp at hl
 
 end Yaclib.Coro
